@@ -200,6 +200,13 @@ func genC05(r *zsimrt.Run) *c05Scenario {
 			}
 			if len(cands) > 0 && r.Chance("base-extends", 1, 2) {
 				o := cands[r.Draw("base-target", len(cands))]
+				// chains that continue inside the base file itself are otherwise rare
+				for _, x := range cands {
+					if x.File == files[fi] && r.Chance("base-same-file", 1, 2) {
+						o = x
+						break
+					}
+				}
 				s.ExtSvc = o.Name
 				if o.File != s.File {
 					s.ExtFile = o.File
@@ -235,11 +242,11 @@ func genC05(r *zsimrt.Run) *c05Scenario {
 		// one chain inside the main file: svc_b extends svc_a, svc_c extends svc_b, ... (the shape the comparison
 		// with the links written as separate compose files applies to)
 		for i := range mains {
-			mains[i].ExtSvc, mains[i].ExtFile, mains[i].ExtForm = "", "", ""
-			if i > 0 {
-				mains[i].ExtSvc = mains[i-1].Name
-				mains[i].ExtForm = []string{"short", "long"}[r.Draw("main-chain-form", 2)]
+			if i == 0 {
+				continue // the root of the chain keeps what was drawn for it (plain, or a base in another file)
 			}
+			mains[i].ExtSvc, mains[i].ExtFile = mains[i-1].Name, ""
+			mains[i].ExtForm = []string{"short", "long"}[r.Draw("main-chain-form", 2)]
 		}
 	}
 	// declaration order of the main services in the document is itself drawn
@@ -369,6 +376,16 @@ func genC05(r *zsimrt.Run) *c05Scenario {
 		}
 		if len(cands) > 0 {
 			v := cands[r.Draw("victim", len(cands))]
+			// the rarest kind of link - a same-file reference inside a base file - gets half of the draws when there is one
+			var inner []*c05Svc
+			for _, x := range cands {
+				if x.File != sc.Main && x.ExtFile == "" {
+					inner = append(inner, x)
+				}
+			}
+			if kind == "missing-service" && len(inner) > 0 && r.Chance("victim-inner", 1, 2) {
+				v = inner[r.Draw("victim-inner-pick", len(inner))]
+			}
 			sc.Victim, sc.VictimFile, sc.Kind = v.Name, v.File, kind
 		}
 	}
@@ -1084,6 +1101,11 @@ func c05Exec(c *Ctx, sc *c05Scenario, minimise bool) {
 	c.Count("loads", out.Loads)
 	c.Count("extends-vs-override-files-comparisons", out.DiffLoads)
 	c.Count("kind-"+sc.Kind, 1)
+	if sc.Kind == "missing-service" && sc.VictimFile != "" && sc.VictimFile != sc.Main {
+		if v := sc.find(sc.VictimFile, sc.Victim); v != nil && v.ExtFile == "" {
+			c.Count("probe:missing-base-of-a-same-file-link-inside-a-base-file", 1)
+		}
+	}
 	c.Count("outcome-"+out.Outcome, 1)
 	c.Count("pinned-visit-orders-applied", out.PinHits)
 	c.Max("visit-orders-per-scenario", out.Perms)
